@@ -283,6 +283,14 @@ func TestVerifDriver(t *testing.T) {
 			mineIn["prior"] = [][]int{vInts(p1)}
 		}
 		emit("pow.Mine", mineIn)
+		if k%5 == 0 && len(data) > 0 { // many workers, a target nearly every batch meets (several winners at once), and the
+			// same Worker mined other data just before
+			p1, p2 := make([]byte, len(data)), make([]byte, len(data))
+			r.Read(p1)
+			r.Read(p2)
+			emit("pow.Mine", M{"data": vInts(data), "target": vFloat(math.Pow(3, float64(1+r.Intn(2))) / float64(len(data)+8)), "workers": 16,
+				"prior": [][]int{vInts(p1), vInts(p2)}})
+		}
 		if k%6 == 2 && len(data) > 0 { // the same Worker mines other data at the same time (attainable targets only)
 			o1, o2 := make([]byte, len(data)), make([]byte, len(data)+3)
 			r.Read(o1)
